@@ -1014,8 +1014,14 @@ func runC15TypedNil(c *CaseCtx, r *rand.Rand) (res CaseResult) {
 		res.Skip = "newvalueset"
 		return res
 	}
+	// the stored reflect.Value has either the static type error (an
+	// interface holding the nil pointer) or the pointer type itself
+	stored := reflect.ValueOf(&asErr).Elem()
+	if r.Intn(2) == 0 {
+		stored = reflect.ValueOf(nilPtr)
+	}
 	built, err := am.BuildFunc(nil, out, func(in, out *am.ValueSet) error {
-		out.Named("warn").Value = reflect.ValueOf(&asErr).Elem()
+		out.Named("warn").Value = stored
 		out.Named("b").Value = reflect.ValueOf(T1{ID: 7})
 		return nil
 	})
@@ -1024,7 +1030,7 @@ func runC15TypedNil(c *CaseCtx, r *rand.Rand) (res CaseResult) {
 		return res
 	}
 	// round trip through the signature
-	out.Named("warn").Value = reflect.ValueOf(&asErr).Elem()
+	out.Named("warn").Value = stored
 	out.Named("b").Value = reflect.ValueOf(T1{ID: 7})
 	sv := out.SignatureValues()
 	out2, _ := am.NewValueSet([]am.Value{{Name: "warn", Type: errT}, {Name: "b", Type: types[1]}})
